@@ -140,3 +140,37 @@ def cstrs(ss) -> str:
 
 
 HEADER = "From SPV Require Import Base.Str.\nOpen Scope string_scope.\n"
+
+
+# ---- pinned shapes ---------------------------------------------------------------------------------
+# Some helper functions are small, pure and modelled by hand; what ties them to the source deterministically is a PIN: the
+# normalised source of the function body (docstring and comments dropped, `ast.unparse` layout) must equal one of the accepted
+# texts in harness/translate/pinned/<name>[.k].txt.  Any edit — harmless or not — makes the translator fail closed; the check
+# then searches for a failing input and reports the tie as broken.  Accepting a reviewed edit = adding a new accepted text
+# (and re-validating the hand model against it by the correspondence).
+
+PINNED_DIR = os.path.join(os.path.dirname(os.path.abspath(__file__)), "pinned")
+
+
+def normalised_body(fn) -> str:
+    return "\n".join(ast.unparse(s) for s in strip_docstring(fn.body)) + "\n"
+
+
+def pin(fn, name: str) -> str:
+    """Fail closed unless the body of `fn` equals an accepted text; returns a short digest for the generated file."""
+    return pin_text(normalised_body(fn), name)
+
+
+def pin_text(got: str, name: str) -> str:
+    import difflib
+    import glob
+    import hashlib
+
+    files = sorted(glob.glob(os.path.join(PINNED_DIR, name + ".txt")) + glob.glob(os.path.join(PINNED_DIR, name + ".*.txt")))
+    if not files:
+        raise Unrecognised(f"no pinned text for {name}")
+    texts = [open(f).read() for f in files]
+    if got not in texts:
+        diff = "".join(list(difflib.unified_diff(texts[0].splitlines(True), got.splitlines(True), "pinned/" + name, "source"))[:40])
+        raise Unrecognised(f"{name}: the source differs from every accepted (pinned) text:\n{diff}")
+    return hashlib.sha256(got.encode()).hexdigest()[:16]
